@@ -10,7 +10,7 @@ from vf import apimon
 from vf.gen import valueflow as vfl
 from vf.props import c02
 
-SIZES = {'quick': 50, 'thorough': 800}
+SIZES = {'quick': 50, 'thorough': 400}
 PER_CASE = 5
 
 
